@@ -53,6 +53,15 @@ impl CopyBroadcastReceiver {
             }
 
             let length = receiver.length() as Index;
+            let type_id = receiver.type_id();
+
+            // The two header words are only meaningful if the record has not been overwritten since
+            // receive_next looked at it: check before using them as a copy length and an event code
+            // (a stale length could be negative or point past the buffer, a stale type is not an AeronCommand).
+            if !receiver.validate() {
+                return Err(BroadcastTransmitError::UnableToKeepUpWithBroadcastBuffer);
+            }
+
             if length > self.scratch_buffer.capacity() {
                 return Err(BroadcastTransmitError::BufferTooSmall {
                     need: length,
@@ -60,7 +69,7 @@ impl CopyBroadcastReceiver {
                 });
             }
 
-            let msg = AeronCommand::from_command_id(receiver.type_id());
+            let msg = AeronCommand::from_command_id(type_id);
 
             self.scratch_buffer.copy_from(0, receiver.buffer(), receiver.offset(), length);
 
